@@ -57,7 +57,7 @@ var assumptions = []string{
 func main() {
 	drv.Main(
 		prop("C01", "exploration", "one case = one generated struct shape: every flat struct of 1..3 (4 in thorough) fields over 8 size/alignment classes (struct{}, bool/int8/uint8, int16/uint16, [3]byte, int32/float32, int64/*int/float64, string/any, []byte; each field its own named type; names exported / unexported / hseq-tagged / tagged with options), every value-embedding template of depth 1..3 with optional fields of three classes before and after the embedded struct at each level, embedded non-struct named types, duplicate names across depths; for every focusable field: Lens and Reflector derived by type and by name (ForProduct1/ForSpectrum1) and positionally through ForProductN/ForSpectrumN (identity order for every shape, every order for a stride), each checked on all 9 ordered (old,new) value pairs: the struct sits between 256-byte guards with sentinel-filled padding, a twin gets the plain assignment, and both memory blocks must be byte-identical; Get == selector read; returned pointer == struct pointer; GetPut, PutGet, PutPut asserted directly; non-trivial = shapes with at least two fields", assumptions),
-		prop("C02", "exploration", "the shapes of C01 (quick: every fourth of the 512 three-field flat shapes, all others; thorough: all) plus pointer-embedded structs (depth 1-2, pointer at each level): every (name, requested type) request with the requested type ranging over all other field types of the shape, a distinct named type with the same underlying type, the bare underlying type and three foreign types (must panic); types no field has; unknown and empty names; too few names for N=2..9 (also passed as a sub-slice with spare capacity); container type parameters *S, **S, []S, [1]S, map[string]S, int (must panic); Reflector Gett/Putt with S by value, *Other, **S, nil, typed nil, uintptr, unsafe.Pointer (must panic, memory byte-identical afterwards); a focus behind an embedded pointer may be refused or must really read/write the pointee and nothing in the outer struct", assumptions),
+		prop("C02", "exploration", "the shapes of C01 (quick: every fourth of the 512 three-field flat shapes, all others; thorough: all up to three fields and every eighth four-field shape) plus pointer-embedded structs (depth 1-2, pointer at each level): every (name, requested type) request with the requested type ranging over all other field types of the shape, a distinct named type with the same underlying type, the bare underlying type and three foreign types (must panic); types no field has; unknown and empty names; too few names for N=2..9 (also passed as a sub-slice with spare capacity); container type parameters *S, **S, []S, [1]S, map[string]S, int (must panic); Reflector Gett/Putt with S by value, *Other, **S, nil, typed nil, uintptr, unsafe.Pointer (must panic, memory byte-identical afterwards); a focus behind an embedded pointer may be refused or must really read/write the pointee and nothing in the outer struct", assumptions),
 		prop("C03", "exploration", "the shapes of C01 and C02 (value and pointer embedding, duplicate names/types across depths, tags): hseq.New[T]() must equal the listing computed by the generator from its own description (names, keys, declared types, PureType, Anonymous, depth-first order, consecutive IDs) and RootOffs+Offset must equal the real offset (pointer difference through ordinary selectors) for every entry not behind a pointer; ForName / ForNameMaybe for every key and for absent keys; ForType / New1 for every field type (first match) and for absent types (panic); New[T](names...) for all permutations of up to 3 keys; NewN with the N distinct field types in both orders; FMap and FMap1..9 positional", assumptions),
 		prop("C04", "exploration", "Join: generated nested named-field structs of nesting 1..3 with optional fields of three classes before/after at each level, the focus a plain field of the innermost struct or promoted from a struct embedded by value in it, lenses derived by name and by type, left- and right-nested association, checked with the C01 byte oracle on all 9 value pairs; ShapeN: ForShape2/3 on every generated flat/embedded shape with 2-3 fields (by type and by name) and ForShape2..9 on a homogeneous 9-field struct with the names chosen at run time (all N-permutations of 9 names for N<=4, N<=7 in thorough; identity/reverse/rotations above), differential against component-wise assignment; BiMapS/B/I/F, BiMap with inverse functions (laws on the converted value), Getter never writes, Setter writes the converted value; map lens over all maps with keys in {a,b,c}; Iso/Morphism over two differently laid-out structs with three common foci: all lists over {nil, iX, iY, iZ, Morphism(iX,iY), Morphism(nil,iZ)} of length <=4 (5): Forward copies exactly the covered foci, source untouched, Forward then Inverse restores the covered foci of another source, the argument slice is not modified and can be reused", assumptions),
 	)
